@@ -303,10 +303,18 @@ spec fn proj_c14<D, E>(ent: &EntityRef<D, E>, method: &Method, req: Map<HeaderNa
             forall|k: HeaderName| #[trigger] common_map(ent).dom().contains(k) ==> o_hmap(out).dom().contains(k) && o_hmap(out)[k] == common_map(ent)[k])
     &&& (out matches ServeInner::Simple(r) ==> r.extra.entity_hdrs@ == (st == 200 || (st == 206 && !req.dom().contains(HeaderName::IF_RANGE) && !o_hmap(out).dom().contains(HeaderName::CONTENT_TYPE))))
     &&& (out matches ServeInner::Multipart { part_headers, ranges, .. } ==> multipart_parts_ok(part_headers@, ranges@, e_len(ent), ent_hdrs_for(ent, req)))
-    // echoing a served strong ETag in If-Range gets the requested range
+    // echoing a served strong ETag in If-Range gets the requested range (status of the Range header's own resolution)
     &&& ((proceeds(ent, method, req) && req.dom().contains(HeaderName::IF_RANGE) && req.dom().contains(HeaderName::RANGE)
             && (e_etag(ent) matches Some(e) && is_tag_form(e.bytes@) && !etag_spec::is_weak(e.bytes@) && req[HeaderName::IF_RANGE].bytes@ =~= e.bytes@)) ==>
-        range_outcome(ent, method, out, range::rr_view(Some(&req[HeaderName::RANGE]), e_len(ent)).0, range::rr_view(Some(&req[HeaderName::RANGE]), e_len(ent)).1, ent_hdrs_for(ent, req)))
+        range_status(ent, out, range::rr_view(Some(&req[HeaderName::RANGE]), e_len(ent)).0, range::rr_view(Some(&req[HeaderName::RANGE]), e_len(ent)).1))
+}
+/// Status alone of `range_outcome`.
+spec fn range_status<D, E>(ent: &EntityRef<D, E>, out: ServeInner<D, E>, kind: int, v: Seq<Range<u64>>) -> bool {
+    if kind == 0 { o_status(out) == 200 }
+    else if kind == 1 { o_status(out) == 416 }
+    else if v.len() == 1 { o_status(out) == 206 }
+    else if est_sum(v, v.len() as int) < e_len(ent) { o_status(out) == 206 || o_status(out) == 413 }
+    else { o_status(out) == 200 }
 }
 /// The length a body announces through its own accounting (its exact size hint, unit `streams`).
 spec fn announced<D, E>(out: ServeInner<D, E>) -> Option<u64> {
